@@ -232,17 +232,57 @@ func c18Types(ctx *Ctx) []c18Type {
 	return out
 }
 
-func c18Options(mask int) rapidproto.GeneratorOptions {
+func c18Options(mask int) rapidproto.GeneratorOptions { return c18OptionsBuilt(mask, 0) }
+
+// c18OptionsBuilt assembles the option set of mask in one of three ways: plain
+// fields only (0), plain fields first and the With... builders after them (1),
+// builders first and plain fields last (2). However it was put together, the
+// set must be honoured.
+func c18OptionsBuilt(mask, build int) rapidproto.GeneratorOptions {
 	var o rapidproto.GeneratorOptions
-	o.NoEmptyLists = mask&1 != 0
-	o.DisallowNilMessages = mask&2 != 0
+	var plainURLs []string        // spellings WithAnyTypes cannot produce
+	var urlTypes []proto.Message // the "/<full name>" ones, as messages
 	if mask&4 != 0 {
-		o.AnyTypeURLs = append([]string{}, anyURLs...)
+		for _, u := range anyURLs {
+			if build != 0 && strings.HasPrefix(u, "/") {
+				if mt, err := protoregistry.GlobalTypes.FindMessageByURL(u); err == nil {
+					urlTypes = append(urlTypes, mt.New().Interface())
+					continue
+				}
+			}
+			plainURLs = append(plainURLs, u)
+		}
+	}
+	builders := func() {
+		if mask&2 != 0 && build != 0 {
+			o = o.WithDisallowNil()
+		}
+		if len(urlTypes) > 0 {
+			o = o.WithAnyTypes(urlTypes...)
+		}
+		if dog := model.TypeByName("verif.opts.Dog"); dog != nil {
+			o = o.WithInterfaceHint("verif.opts.Animal", dog.New())
+		}
+	}
+	if build == 2 {
+		builders()
+	}
+	o.NoEmptyLists = mask&1 != 0
+	if build == 0 {
+		o.DisallowNilMessages = mask&2 != 0
+	}
+	if mask&4 != 0 {
+		o.AnyTypeURLs = append(o.AnyTypeURLs, plainURLs...)
 		o.Resolver = protoregistry.GlobalTypes
 	}
-	if dog := model.TypeByName("verif.opts.Dog"); dog != nil {
-		o = o.WithInterfaceHint("verif.opts.Animal", dog.New())
+	o = c18Mappers(o, mask)
+	if build != 2 {
+		builders()
 	}
+	return o
+}
+
+func c18Mappers(o rapidproto.GeneratorOptions, mask int) rapidproto.GeneratorOptions {
 	if mask&8 != 0 {
 		// three mappers: the first declines everything, the second claims int32
 		// fields, the third strings - every one of them must be consulted
@@ -284,9 +324,10 @@ func runC18(ctx *Ctx) {
 				continue
 			}
 			ty, mask := ty, mask
-			opts := c18Options(mask)
+			build := idx % 3
+			opts := c18OptionsBuilt(mask, build)
 			ctx.CheckRapid(fmt.Sprintf("%s/opts=%d", ty.name, mask), n, func(rt *rapid.T) *Case {
-				c := &Case{Type: ty.name, Args: map[string]string{"opts": fmt.Sprint(mask)}}
+				c := &Case{Type: ty.name, Args: map[string]string{"opts": fmt.Sprint(mask), "build": fmt.Sprint(build)}}
 				var m proto.Message
 				err := func() (err error) {
 					defer func() {
@@ -362,7 +403,9 @@ func checkC18(ctx *Ctx, c *Case, m proto.Message, opts rapidproto.GeneratorOptio
 	if got, want := model.Canon(back.ProtoReflect(), model.Same), model.Canon(m.ProtoReflect(), model.Same); got != want {
 		return fmt.Errorf("drawn message changes in a wire round trip: %s", diffStr(got, want))
 	}
-	if err := c18Walk(m.ProtoReflect(), opts, mask, 0, string(m.ProtoReflect().Descriptor().Name())); err != nil {
+	// the predicates are those of the option set that was ASKED for (mask), not of
+	// the struct the builders returned: a builder that loses a flag must show
+	if err := c18Walk(m.ProtoReflect(), c18Options(mask), mask, 0, string(m.ProtoReflect().Descriptor().Name())); err != nil {
 		return err
 	}
 	if len(b) > 0 {
@@ -535,7 +578,7 @@ func replayC18(ctx *Ctx, c *Case) error {
 		return replayChain(c)
 	}
 	mask := c.argInt("opts")
-	opts := c18Options(mask)
+	opts := c18OptionsBuilt(mask, c.argInt("build"))
 	var ty *c18Type
 	for _, t := range c18Types(ctx) {
 		if t.name == c.Type {
@@ -549,7 +592,7 @@ func replayC18(ctx *Ctx, c *Case) error {
 	if c.Bytes != "" {
 		m := ty.new()
 		if err := proto.Unmarshal(unhex(c.Bytes), m); err == nil {
-			if err := c18Walk(m.ProtoReflect(), opts, mask, 0, string(m.ProtoReflect().Descriptor().Name())); err != nil {
+			if err := c18Walk(m.ProtoReflect(), c18Options(mask), mask, 0, string(m.ProtoReflect().Descriptor().Name())); err != nil {
 				// the recorded message violates a predicate: only meaningful if the
 				// generator still produces such messages, which the loop below decides
 				ctx.Label("replay: recorded message violates predicate")
